@@ -34,6 +34,15 @@ func VerifPointScaled(enc [32]byte, lambda [32]byte) (*EdwardsPoint, bool) {
 	return &p, true
 }
 
+// VerifPointLoosen rewrites the four coordinates of p into unreduced limb representations of the same values
+// (see field.VerifLoosen); the point it denotes is unchanged.
+func VerifPointLoosen(p *EdwardsPoint, r byte) {
+	field.VerifLoosen(&p.inner.X, uint64(r&3))
+	field.VerifLoosen(&p.inner.Y, uint64((r>>2)&3))
+	field.VerifLoosen(&p.inner.Z, uint64((r>>4)&3))
+	field.VerifLoosen(&p.inner.T, uint64((r>>6)&3))
+}
+
 // VerifVectorizedEdwards reports whether the AVX2 point-arithmetic backend is active.
 func VerifVectorizedEdwards() bool { return supportsVectorizedEdwards }
 
